@@ -304,7 +304,7 @@ def load_results():
     if not os.path.isdir(OUT):
         return res
     for fn in sorted(os.listdir(OUT)):
-        if not fn.endswith(".jsonl"):
+        if not fn.endswith(".jsonl") or fn.endswith(".retest.jsonl"):
             continue
         pid = fn[:-6]
         meta, recs = None, {}
@@ -318,12 +318,107 @@ def load_results():
     return res
 
 
+
+# ----------------------------------------------------------------------------------------------------- probe / retest
+
+def find_record(pid, sel):
+    """Tested mutants of PID by full key, or by a substring of 'file:line:desc @col' (the '@col' part makes a selector unique)."""
+    meta, recs = load_results()[pid]
+    hits = []
+    for r in recs:
+        tag = "%s:%d:%s @%d" % (r["file"], r["line"], r["desc"], r["col"])
+        if sel == r["key"] or sel in tag:
+            hits.append(r)
+    return hits
+
+
+def probe(a):
+    """--probe SEL --case 'op<TAB>args' [--tags 'verif debug']: run ONE harness case on the unchanged tree and on the mutant
+    (harness -replay, no model involved) and print both observations."""
+    pid = a.pid
+    hits = find_record(pid, a.probe)
+    if len(hits) != 1:
+        print("selector matches %d mutants:" % len(hits)); [print("  %s:%d:%s @%d" % (r["file"], r["line"], r["desc"], r["col"])) for r in hits]; return 2
+    r = hits[0]
+    exe = build_mutgen()
+    wt = "/tmp/ms-%s-probe%d" % (pid, os.getpid())
+    try:
+        rc, out, _ = run(["git", "-C", REPO, "worktree", "add", "-q", "--detach", wt, "HEAD"]); assert rc == 0, out
+        obs = []
+        for mutated in (False, True):
+            if mutated:
+                rc, txt, _ = run([exe, "-file", os.path.join(REPO, r["file"]), "-apply", str(r["id"])]); assert rc == 0
+                open(os.path.join(wt, r["file"]), "w").write(txt)
+            hdir = os.path.join(wt + "-h")
+            shutil.rmtree(hdir, ignore_errors=True); os.makedirs(hdir)
+            for f in os.listdir(os.path.join(ROOT, "harness")):
+                if f.endswith(".go") or f == "go.mod":
+                    t = open(os.path.join(ROOT, "harness", f)).read()
+                    if f == "go.mod":
+                        t = t.replace("=> /repo", "=> " + wt)
+                    open(os.path.join(hdir, f), "w").write(t)
+            shutil.copyfile(os.path.join(wt, "go.sum"), os.path.join(hdir, "go.sum"))
+            rc, out, _ = run(["go", "build", "-tags", a.tags, "-o", "h", "."], cwd=hdir, env=dict(ENV, CGO_ENABLED="0"))
+            if rc != 0:
+                print("harness build failed:", out[-800:]); return 2
+            for c in a.case:
+                rc, out, _ = run([os.path.join(hdir, "h"), "-replay", c.replace("\\t", "\t")], timeout=120)
+                obs.append((mutated, c, out.strip().split("\t")[2] if out.count("\t") >= 2 else "rc=%d %s" % (rc, out[-300:])))
+        n = len(a.case)
+        for i in range(n):
+            o, m = obs[i][2], obs[n + i][2]
+            print("%s\n  original: %s\n  mutant  : %s\n  %s" % (obs[i][1], o[:400], m[:400], "DIFFERENT" if o != m else "same"))
+    finally:
+        subprocess.run(["git", "-C", REPO, "worktree", "remove", "--force", wt], stdout=subprocess.DEVNULL, stderr=subprocess.DEVNULL)
+        shutil.rmtree(wt, ignore_errors=True); shutil.rmtree(wt + "-h", ignore_errors=True)
+    return 0
+
+
+def retest(a):
+    """--retest [SEL ...]: run ./check (with the CURRENT corpus) again on survivors (all, or the selected ones) and record the
+    outcome in build/mutsweep/<PID>.retest.jsonl; the report marks those now detected as closed."""
+    pid = a.pid
+    meta, recs = load_results()[pid]
+    todo = [r for r in recs if r["outcome"] == "survived"]
+    if a.retest != ["all"]:
+        todo = [r for r in todo if any(sel == r["key"] or sel in "%s:%d:%s @%d" % (r["file"], r["line"], r["desc"], r["col"]) for sel in a.retest)]
+    exe = build_mutgen()
+    w = Worker(pid, 90 + (os.getpid() % 9))
+    outp = open(os.path.join(OUT, pid + ".retest.jsonl"), "a")
+    try:
+        w.setup()
+        for r in todo:
+            w.reset()
+            rc, txt, _ = run([exe, "-file", os.path.join(REPO, r["file"]), "-apply", str(r["id"])]); assert rc == 0
+            open(os.path.join(w.wt, r["file"]), "w").write(txt)
+            res = w.check(a.timeout)
+            oc = "detected" if (res["check_exit"] == 1 and res["violation"]) else ("detected-by-hang" if res["timed_out"] else ("survived" if res["check_exit"] == 0 else "tool-error"))
+            rec = {"key": r["key"], "outcome": oc}; rec.update(res)
+            outp.write(json.dumps(rec) + "\n"); outp.flush()
+            print("%s:%d %s -> %s %s" % (r["file"], r["line"], r["desc"], oc, json.dumps(res.get("replay", {}))[:300]), flush=True)
+    finally:
+        w.teardown(); outp.close()
+    return 0
+
+
 def esc(s):
     return (s or "").replace("|", "\\|").replace("\n", " ")
 
 
+def load_retests():
+    rt = {}
+    if os.path.isdir(OUT):
+        for fn in os.listdir(OUT):
+            if fn.endswith(".retest.jsonl"):
+                for l in open(os.path.join(OUT, fn)):
+                    j = json.loads(l)
+                    rt[fn[:-13] + ":" + j["key"]] = j["outcome"]
+    return rt
+
+
 def report():
     res = load_results()
+    retests = load_retests()
     tri_path = os.path.join(ROOT, "tools", "mutsweep_triage.json")
     triage = json.load(open(tri_path)) if os.path.exists(tri_path) else {}
     notes_path = os.path.join(ROOT, "docs", "mutation-sweep-notes.md")
@@ -353,7 +448,7 @@ def report():
         for r in surv:
             t = triage.get(pid + ":" + r["key"], {})
             tc[t.get("class", "untriaged")] += 1
-        closed = sum(1 for r in surv if triage.get(pid + ":" + r["key"], {}).get("closed"))
+        closed = sum(1 for r in surv if retests.get(pid + ":" + r["key"], "").startswith("detected"))
         L.append("| %s | %d | %d | %d | %d | %d | %d | %d | %d | %d | %d | **%d** | %d / %d / %d (%d) / %d |" % (
             pid, len(meta["files"]) if meta else 0, sum(meta["sites"].values()) if meta else 0, meta["mutants"] if meta else 0, len(recs),
             c["stillborn"], c["suite-killed"], ss, c["detected"], c["detected-by-hang"],
@@ -381,7 +476,7 @@ def report():
         L.append("|---|---|---|---|---|---|---|")
         for r in sorted(surv, key=lambda r: (r["file"], r["line"], r["col"], r["desc"])):
             t = triage.get(pid + ":" + r["key"], {})
-            cls = t.get("class", "untriaged") + (" (closed by corpus: now detected)" if t.get("closed") else "")
+            cls = t.get("class", "untriaged") + (" (closed by corpus: now detected)" if retests.get(pid + ":" + r["key"], "").startswith("detected") else "")
             L.append("| %s:%d | %s | %s: %s | `%s` | `%s` | %s | %s |" % (r["file"], r["line"], esc(r["func"]), r["op"], esc(r["desc"]),
                                                                       esc(r["orig_line"]), esc(r["mut_line"]), cls, esc(t.get("why", ""))))
         L.append("")
@@ -415,11 +510,35 @@ def main():
     ap.add_argument("--fresh", action="store_true")
     ap.add_argument("--only-file")
     ap.add_argument("--report", action="store_true")
+    ap.add_argument("--probe", help="mutant selector 'file:line:desc-substring'")
+    ap.add_argument("--case", action="append", default=[], help="op<TAB>args (literal \\t accepted)")
+    ap.add_argument("--tags", default="verif")
+    ap.add_argument("--triage", nargs=3, metavar=("SEL", "CLASS", "WHY"))
+    ap.add_argument("--retest", nargs="*", help="'all' or mutant selectors")
     a = ap.parse_args()
     if a.report:
         return report()
     if not a.pid:
         ap.error("PID or --report")
+    if a.triage:
+        # --triage SEL CLASS WHY : record a hand-made decision about one survivor in tools/mutsweep_triage.json
+        sel, cls, why = a.triage
+        assert cls in ("EQUIVALENT", "OUT-OF-DOMAIN", "GAP"), cls
+        hits = [r for r in find_record(a.pid, sel) if r["outcome"] == "survived"]
+        if len(hits) != 1:
+            print("selector matches %d survivors:" % len(hits)); [print("  %s:%d:%s @%d" % (r["file"], r["line"], r["desc"], r["col"])) for r in hits]; return 2
+        tp = os.path.join(ROOT, "tools", "mutsweep_triage.json")
+        t = json.load(open(tp)) if os.path.exists(tp) else {}
+        r = hits[0]
+        t[a.pid + ":" + r["key"]] = {"class": cls, "why": why, "at": "%s:%d" % (r["file"], r["line"]), "mut_line": r["mut_line"]}
+        json.dump(t, open(tp, "w"), indent=1, sort_keys=True)
+        print("ok", a.pid, r["key"], cls)
+        return 0
+    if a.probe:
+        return probe(a)
+    if a.retest is not None:
+        a.retest = a.retest or ["all"]
+        return retest(a)
     a.jobs = max(1, min(a.jobs, 6))
     return sweep(a)
 
